@@ -6,6 +6,7 @@ CONSTANTS
   MaxTexts = 12
   Flags <- FlagWords
   Verbs <- Levels
+  TextShapes <- OnePlain
   Repaired = TRUE
   Depth = 12
   SeqLevels <- Levels
